@@ -313,6 +313,7 @@ type workerEnv struct {
 	deadline time.Duration
 	n        int
 	mkSeq    int
+	base     map[int]gor // census after the previous request settled = baseline of the next one
 }
 
 func (w *workerEnv) emit(kind string, v any) {
@@ -385,18 +386,20 @@ func (w *workerEnv) serve(id int, method, path string, headers [][2]string, body
 }
 
 // settle waits until no goroutine created since base (with repository frames) is left, polling with scheduler
-// yields first and short sleeps later; returns what is left after the bound.
-func settle(base map[int]gor) []string {
+// yields first and short sleeps later; returns what is left after the bound, and the last census taken.
+func settle(base map[int]gor) ([]string, map[int]gor) {
 	var left []string
+	var cur map[int]gor
 	for i := 0; i < 400; i++ {
 		left = left[:0]
-		for id, g := range census() {
+		cur = census()
+		for id, g := range cur {
 			if _, ok := base[id]; !ok {
 				left = append(left, shortSite(g.Site)+" ["+strings.SplitN(g.State, ",", 2)[0]+"]")
 			}
 		}
 		if len(left) == 0 {
-			return nil
+			return nil, cur
 		}
 		if i < 50 {
 			runtime.Gosched()
@@ -405,18 +408,21 @@ func settle(base map[int]gor) []string {
 		}
 	}
 	sort.Strings(left)
-	return left
+	return left, cur
 }
 
 func (w *workerEnv) run(in *Input, forceFollow bool) Result {
 	t0 := time.Now()
 	res := Result{ID: in.ID}
-	base := census()
+	base := w.base
+	if base == nil {
+		base = census()
+	}
 	r0 := atomic.LoadInt64(&svcRequests)
 	w.ing.fake.takeIssues()
 	so := w.serve(in.ID, in.Method, in.Path, in.Headers, in.Body, base)
 	res.Status, res.Panic, res.PanicSite = so.status, so.panicked, so.panicSite
-	res.Leaked = settle(base)
+	res.Leaked, w.base = settle(base)
 	res.Requests = atomic.LoadInt64(&svcRequests) - r0
 	res.Issues = w.ing.fake.takeIssues()
 	w.n++
@@ -438,7 +444,7 @@ func (w *workerEnv) run(in *Input, forceFollow bool) Result {
 		if q != "" {
 			path += "?" + q
 		}
-		fbase := census()
+		fbase := w.base
 		fo := w.serve(in.ID, rs.Method, path, hs, seedBody(fam, marker), fbase)
 		res.FollowDone = true
 		res.FollowUp = fo.status
@@ -447,7 +453,8 @@ func (w *workerEnv) run(in *Input, forceFollow bool) Result {
 		}
 		res.FollowSeen = w.ing.fake.sawMarker(marker)
 		res.FollowIss = w.ing.fake.takeIssues()
-		if l := settle(fbase); len(l) > 0 && len(res.Leaked) == 0 {
+		var l []string
+		if l, w.base = settle(fbase); len(l) > 0 && len(res.Leaked) == 0 {
 			res.Leaked = l
 		}
 	}
@@ -483,7 +490,7 @@ func routeForFamily(fam string) (routeSpec, ctSpec) {
 }
 
 // workerMain: read inputs (JSON lines) from file starting at offset, run up to count of them, journal on stdout.
-func workerMain(file string, offset int64, count int, deadline time.Duration) {
+func workerMain(file string, offset int64, count int, deadline time.Duration, standby bool) {
 	// the journal goes to fd 3 (stdout / stderr carry whatever the repository prints, and the crash dump)
 	jf := os.Stdout
 	if os.Getenv("VERIF_C05_JOURNAL_FD") == "3" {
@@ -515,6 +522,7 @@ func workerMain(file string, offset int64, count int, deadline time.Duration) {
 		fams = append(fams, f)
 	}
 	sort.Strings(fams)
+	w.deadline = 15 * time.Second // warm-up runs while the machine may be busy starting other workers
 	for _, fam := range fams {
 		if fam == "health" {
 			continue
@@ -535,6 +543,24 @@ func workerMain(file string, offset int64, count int, deadline time.Duration) {
 		}
 	}
 	w.emit("R", map[string]any{"routes": w.ing.routes, "pid": os.Getpid()})
+	if standby {
+		// assignment: "file\toffset\tcount\tdeadline\n" on stdin; EOF = not needed any more
+		line, err := bufio.NewReader(os.Stdin).ReadString('\n')
+		if err != nil {
+			return
+		}
+		f := strings.Split(strings.TrimSpace(line), "\t")
+		if len(f) != 4 {
+			w.emit("X", map[string]any{"msg": "bad assignment: " + line})
+			os.Exit(4)
+		}
+		file = f[0]
+		offset, _ = strconv.ParseInt(f[1], 10, 64)
+		count, _ = strconv.Atoi(f[2])
+		deadline, _ = time.ParseDuration(f[3])
+		w.base = nil
+	}
+	w.deadline = deadline
 	f, err := os.Open(file)
 	if err != nil {
 		w.emit("X", map[string]any{"msg": err.Error()})
